@@ -9,6 +9,33 @@ CLAIMED = {
     },
 }
 
+CLAIMED.update({
+    "C02": {"text": "Key/signature/custom-address encodings: for all 32-byte strings a PublicKey is accepted (from bytes, slices, 64-char hex, 52-char base32, z-base-32) only after the curve-validity oracle accepted exactly those bytes; other lengths are errors without panics; Signature and CustomAddr binary forms round-trip for every id and every payload length 0..=40 across the 30/31 inline/heap boundary. Bounded model checking of the real parsers (data-encoding included).",
+            "note": "Curve validity is an uninterpreted oracle (stub of CompressedEdwardsY::decompress). Outside: SecretKey/sign/verify, serde/postcard/JSON, Display via fmt, URLs (Url::parse does not finish under CBMC), CustomAddr string form, non-ASCII input."},
+    "C05": {"text": "No relay client can push a frame into another client's connection that the receiver's sink refuses: for every payload length 0..=65544 (single and batch) Client::try_send_packet queues a datagram iff Datagrams::is_forwardable, and is_forwardable coincides with the sink-side checks of RelayedStream::start_send (whose error would end the receiver's actor).",
+            "note": "The actor loop itself (tokio select!, mpsc receive) is not compilable by Kani; that a sink error ends only the receiving actor, and that try_send_packet is the only producer of a client's packet queue, are by reading. Client is partially initialised (packet queue only). Encoder stubbed in the symbolic-length harnesses."},
+    "C09": {"text": "Token bucket of the relay path: from_config is total and yields a full bucket (burst default rate/10); one consume step from every reachable state refills only by whole elapsed periods (never before one has elapsed, never above max), admits iff tokens remain, and throttles until exactly the first period boundary with a positive fill; no byte count, clock reading or reachable state makes it panic. Inductive step => bound for histories of any length.",
+            "note": "Ranges: 8-bit (quick) / 12-bit (thorough) for the functional step, full u32-derived ranges for panic-freedom. RateLimited::poll_read (tokio Sleep) is outside: that it sleeps until the returned deadline is by reading. Clock stubbed (symbolic)."},
+    "C10": {"text": "Relay frames: for every frame type and boundary length the encoders produce exactly the wire layout (and encoded_len is exact) and the decoders of both directions parse every byte string of that type/length exactly as the layout says, reject frames of the other protocol version, accept keys only if the validity oracle does, never panic; a frame at the sender's size limit is accepted by the receiver. encode==layout and decode==parse imply decode(encode(m))==m.",
+            "note": "One harness per (frame type, total length); payload contents/keys/ping data/status/durations/versions symbolic, ECN and segment size enumerated over {all 4} x {1,0x0102,65535} on the encode side (niche-encoded enum discriminants). Payloads > 40 bytes and the LRU key cache are outside."},
+    "C11": {"text": "Kernel only: a sub-protocol token names a version iff it equals that version's identifier exactly (all ASCII strings <= 16 bytes); identifiers distinct; V2 is the maximum of the derived order used to pick the newest offered version.",
+            "note": "PARTIAL: the header-splitting pipeline lives inline in handle_relay_ws_upgrade (needs hyper::body::Incoming) and in ClientBuilder::connect; mutations there are not detected."},
+    "C14": {"text": "Ping tracker: over every history of 3 operations with arbitrary ping data, pong data and clock advances the tracker is armed iff the latest ping is unanswered, its deadline is that ping's send time plus the timeout in force, RTT is taken only from a pong matching the latest ping, stale/forged pongs change nothing; the next timeout is clamp(3*rtt, 500 ms, max).",
+            "note": "timeout() (tokio sleep_until) cannot be compiled by Kani: that it sleeps until exactly the stored deadline is by reading. rand::random and the clock are symbolic stubs."},
+    "C16": {"text": "take_segments: one step from any batch (contents 0..=24 symbolic bytes, segment size None or 1..=65535, n in 1..=usize::MAX) partitions it exactly - taken||rest == original, at most n whole segments, ECN kept, segment_size Some iff more than one datagram on both parts; three repeated takes reassemble the original.",
+            "note": "Bytes handles are static-vtable in the harness; contents longer than 24 bytes are outside (bytes are never inspected by the function)."},
+    "C18": {"text": "Classification of ALL socket addresses (128-bit address, port, flow info, scope; all IPv4): synthetic kinds are recognised exactly by the reserved prefixes fd15:070a:510b:000{0,1,3}, are pairwise disjoint, keep their bits, and every other address passes through unchanged.",
+            "note": "PARTIAL: AddrMap::{get,lookup} (the key<->address bijection under concurrency) is not decided - FxHashMap with symbolic keys does not finish and the real generate() uses rand::rng() (kani-compiler ICE)."},
+    "C19": {"text": "Per-socket routing predicates: is_valid_send_addr and is_valid_default_addr equal the statement's rule for every bound-socket configuration (any address, prefix 0..=32/128, scope, flags), destination and optional source - fully symbolic.",
+            "note": "PARTIAL: the selection over the prefix-sorted socket list, the never-fatal wrapper and the dispatch of synthetic addresses need live sockets/RemoteMap and are not decided."},
+    "C32": {"text": "Signed packets: from_bytes / from_relay_payload accept exactly when the (embedded or given) key is a valid point, the signature oracle accepts (that key, signable(timestamp, payload) of this very packet, this signature) and the payload parses; accepted bytes are preserved; wrong sizes are rejected before any check; every value returned by the unchecked constructors can be inspected without panic.",
+            "note": "Ed25519 and the DNS parser are uninterpreted oracles; signable is replaced by an injective model (its format! text is not decided). txt_records/Display/from_txt_strings outside. All packet bytes symbolic, payload lengths {0,2,4}."},
+    "C33": {"text": "Timestamp::now: for arbitrary (backwards) wall-clock readings and up to 3 interferences per call by other threads (which can only raise the cell) or spurious CAS failures, the returned value is strictly greater than the cell's value immediately before the successful CAS and the cell then holds it - by induction every returned timestamp exceeds all earlier ones, for any number of threads.",
+            "note": "Rely/guarantee over a sequentially consistent model of the single atomic cell (compare_exchange_weak stubbed with an environment step); hardware memory orderings and u64 wrap are outside."},
+    "C37": {"text": "Ordering kernel: more_recent_than is a strict total order on (timestamp, payload) - irreflexive, asymmetric, transitive, total, prefix payloads ordered - over fully symbolic packets, so keeping a packet unless the stored one is more recent converges to the newest packet for every arrival order.",
+            "note": "PARTIAL: the store actor, redb and the update report of ZoneStore::insert are not encodable; that the store applies exactly this comparison is by reading."},
+})
+
 NA_WALL12 = "needs live tokio tasks/timers/channels (thread-locals with destructors make kani-compiler 0.68 ICE; Kani does not model concurrency): no decisive kernel can be symbolically executed"
 PENDING = "harness not built yet in this revision (planned, DESIGN.md section 4); not claimed until its check exists and passes"
 NOT_APPLICABLE = {
@@ -28,6 +55,8 @@ NOT_APPLICABLE = {
     "C41": "Router shutdown = JoinSet/JoinHandle/CancellationToken across tasks; " + NA_WALL12,
     "C43": "BTreeMap<RelayUrl, Arc<RelayConfig>> operations exhaust CBMC even on empty maps (58 GB) and keys need Url values",
 }
-for _p in ["C01","C02","C03","C05","C07","C09","C10","C11","C12","C13","C14","C15","C16","C17","C18","C19","C20","C22","C23","C24","C29","C30","C31","C32","C33","C37","C42"]:
+NOT_APPLICABLE["C15"] = "the only decisive synchronous kernel (pop_family) works on a VecDeque: VecDeque::remove at a symbolic index exhausts CBMC (26 GB at 2 elements) and even fully concrete 2-3 element queues did not finish in 15 min; the dialing loop itself is tokio timers/TcpStream/select!"
+NOT_APPLICABLE["C20"] = "Builder::bind_addr_with_opts takes the Builder by value: its drop glue statically reaches thread-locals with destructors (DNS resolver / tokio), which makes kani-compiler 0.68 panic (intrinsics.rs:243) for any harness that reaches the function, even with an uninitialised Builder; the order dependence found by reading was repaired (see DESIGN section 5) but is not decided by a check"
+for _p in ["C01","C03","C07","C12","C13","C17","C22","C23","C24","C29","C30","C31","C42"]:
     NOT_APPLICABLE.setdefault(_p, PENDING)
 
